@@ -116,7 +116,8 @@ func (c Coin) Float64() (float64, error) {
 // MultCoin multiplies Coin c by b, returning an error if the values overflow
 func MultCoin(c, b Coin) (Coin, error) {
 	a := c * b
-	if a != 0 && a/c != b {
+	// a product that wraps to exactly 0 overflowed as well
+	if c != 0 && a/c != b {
 		return 0, ErrUint64MultOverflow
 	}
 	return a, nil
